@@ -9,3 +9,5 @@ import MJ.Props.C19
 #print axioms MJ.C19.capture_write_local
 #print axioms MJ.C19.captures_do_not_touch_sink
 #print axioms MJ.C19.no_panic
+#print axioms MJ.C19.structured_render_is_op_sequence
+#print axioms MJ.C19.C19_structured
